@@ -2030,7 +2030,12 @@ def _apply_partials(mods: dict[str, Module], log: list[str]) -> None:
                 for node in ast.walk(fn):
                     for child in ast.iter_child_nodes(node):
                         child._parent = node  # type: ignore[attr-defined]
-                if any(inner_loop(c) is not inner_loop(st) or (c.lineno, c.col_offset) <= (st.lineno, st.col_offset) for c in calls):
+                # the binding runs before every call and what it binds is not re-bound in between: same loop nesting, or a binding outside every loop
+                if any((inner_loop(c) is not inner_loop(st) and inner_loop(st) is not None) or (c.lineno, c.col_offset) <= (st.lineno, st.col_offset) for c in calls):
+                    continue
+                if inner_loop(st) is None and any(sum(1 for x in ast.walk(fn) if isinstance(x, ast.Name) and x.id == nm and isinstance(x.ctx, ast.Store)) > 0 and nm not in _params(fn)
+                                                  and not all(getattr(x, "lineno", 0) < st.lineno for x in ast.walk(fn) if isinstance(x, ast.Name) and x.id == nm and isinstance(x.ctx, ast.Store))
+                                                  for nm in names):
                     continue
                 for c in calls:
                     c.func = _clone(st.value.args[0])
